@@ -432,6 +432,11 @@ func c05Case(ctx context.Context, run *common.Run, obs *c05obs, idx int, orphan 
 	idle, running, pending := waitIdle(mgr, 40*time.Second)
 	if !idle && !running && pending {
 		atomic.AddInt64(&obs.lostTrigger, 1)
+		// the sync thread has ended, yet the restart flag a trigger set for it is still up: that
+		// trigger started nothing and nothing will run until some later, unrelated trigger
+		viol("processes-up-to-the-tip", "trigger-lost/restart-flag-set-while-no-round-running",
+			"a trigger that arrived while the round was finishing only flagged the finished sync thread: no round is running and none will start (observed twice, 3 ms apart)")
+		return
 	} else if !idle {
 		if orphan {
 			env.mu.Lock()
@@ -471,8 +476,10 @@ func c05Case(ctx context.Context, run *common.Run, obs *c05obs, idx int, orphan 
 		viol("bounded-progress", "sync-round-does-not-end/"+bmState, fmt.Sprintf("synchronisation still running 40 s after the last fault (running=%v pending=%v) %s requests=%v", running, pending, bmState, tail))
 		return
 	}
-	// a fault-free round runs to the tip: nothing may be left for a later trigger
-	if idle && !faulty && extra == 0 && !orphan && conc == 1 {
+	// a fault-free round runs to the tip: nothing may be left for a later trigger. With headers
+	// arriving mid-round the last trigger came after the last header, so either the running round
+	// was flagged to restart or a new round was started: at idle everything is processed as well.
+	if idle && !faulty && !orphan && conc == 1 {
 		env.mu.Lock()
 		tipNow := len(env.bestNow) - 1
 		var left []int
@@ -485,8 +492,8 @@ func c05Case(ctx context.Context, run *common.Run, obs *c05obs, idx int, orphan 
 		}
 		env.mu.Unlock()
 		if len(left) > 0 {
-			viol("processes-up-to-the-tip", fmt.Sprintf("round-ended-before-the-tip/slow-block=%v", slow10),
-				fmt.Sprintf("no source failures, yet after the round heights %v are unprocessed", left))
+			viol("processes-up-to-the-tip", fmt.Sprintf("round-ended-before-the-tip/slow-block=%v/headers-mid-round=%v", slow10, extra > 0),
+				fmt.Sprintf("no source failures, %d headers arrived mid-round (each followed by a trigger), yet at idle heights %v are unprocessed", extra, left))
 			return
 		}
 	}
